@@ -172,6 +172,47 @@ def run(ctx):
     ctx.check(ok, 'R20.5', 'unconditional-recursion', cj.where(rec[0][0]) if rec else cj.where(0), cj.path,
               'every child element must be searched for joints, whatever it is (otherwise nesting changes the result)', found=found)
 
+    # ---- R20.7 axis-derived sign correction
+    ctx.rule('R20.7', 'sign correction = -1 / +1 by the sign of the single non-zero axis component, 0 otherwise, 1 when no axis is given')
+    ax = util.find_role(ctx, 'axis sign helper: fn(Element) -> Result<i32, ..> reading the xyz attribute',
+                        lambda b, sg: 'Result<i32' in sg[0] and len(sg) == 2 and 'Element' in sg[1], module='urdf::', called_from=[fu])
+    cls = util.closure_bodies(prog, ax.path)
+    filt = mp = False
+    for c in cls:
+        rvs = [(strip(x[0]), [(strip(g), opw.truth(k)) for g, k, sw in c.guard_terms(x[1][1])]) for x in c.return_values()]
+        if len(rvs) == 1 and isinstance(rvs[0][0], tuple) and rvs[0][0][0] == 'bin' and rvs[0][0][1] == 'Ne' and util.const_val(rvs[0][0][3]) == 0.0:
+            filt = True
+        if len(rvs) == 2:
+            vals = {}
+            for v, gs in rvs:
+                for g, tv in gs:
+                    bd = util.as_bound(g, tv)
+                    if bd is not None and bd[0] == 'lt' and util.const_val(bd[2]) == 0.0:
+                        vals['neg'] = util.const_val(v)
+                    if bd is not None and bd[0] == 'le' and util.const_val(bd[1]) == 0.0:
+                        vals['nonneg'] = util.const_val(v)
+            mp = vals == {'neg': -1, 'nonneg': 1}
+    rets = {}
+    for tt, d, rb2 in ax.return_values():
+        tt = strip(tt)
+        if isinstance(tt, tuple) and tt[0] == 'agg' and 'Ok' in tt[1]:
+            gs = [(strip(g), opw.truth(k)) for g, k, sw in ax.guard_terms(d[1])]
+            one = [v for g, v in gs if isinstance(g, tuple) and g[0] == 'bin' and g[1] == 'Eq' and util.const_val(g[3]) == 1 and 'len' in show(g[2], maxdepth=3)]
+            v = util.const_val(tt[2])
+            if v is None and one and one[0] is True:
+                rets['single'] = 'index0' if mir.contains(tt[2], lambda x: x[0] == 'call' and cname(x[1]) == 'Index::index' and util.const_val(x[3]) == 0) else '?'
+            elif v == 0:
+                rets['other'] = 0
+    ctx.check(filt and mp and rets == {'single': 'index0', 'other': 0}, 'R20.7', 'axis-sign', ax.where(0), ax.path,
+              'the sign correction must be the sign of the single non-zero axis component (0 for none or several)', found='filter!=0:%s map:%s returns:%s' % (filt, mp, rets), detail=str(rets))
+    dflt = False
+    for bi, t2 in cj.calls():
+        if cname(callee_name(t2)) == 'Option::map_or':
+            a = [strip(cj.op_term(x, (bi, None))) for x in t2['args']]
+            if isinstance(a[1], tuple) and a[1][0] == 'agg' and 'Ok' in a[1][1] and util.const_val(a[1][2]) == 1 and isinstance(a[2], tuple) and a[2][0] == 'const' and a[2][2] == ax.path:
+                dflt = True
+    ctx.check(dflt, 'R20.7', 'axis-default', cj.where(0), cj.path, 'a joint without <axis> must get sign correction 1, otherwise the axis helper decides')
+
     # ---- R20.6 regex constant table
     pa = util.find_role(ctx, 'angle parser: fn(&str) -> Result<f64, ParameterError> constructing a Regex',
                         lambda b, sg: sg[1:] == ['&str'] and 'Result<f64' in sg[0] and any(cname(callee_name(t)) == 'Regex::new' for _, t in b.calls()), module='urdf::', called_from=[fu])
